@@ -25,7 +25,7 @@ FLOORS = {'quick': {'lu_factor': 150, 'lu_solve': 150, 'matrix_inverse': 100, 'm
                     'matrix_pivot': 300, 'matrix_identity': 300, 'same-args-same-result': 500, 'helper': 1000,
                     'lu_solve_must_return': 60},
           'thorough': {'lu_factor': 1500, 'lu_solve': 1500, 'matrix_inverse': 1000, 'same-args-same-result': 5000}}
-MANDATORY_TAGS = ['size8', 'size1', 'swaps>=2', 'zero-diagonal', 'diag-dominant', 'collocation', 'float-entries',
+MANDATORY_TAGS = ['size8', 'size1', 'edit-in-place', 'swaps>=2', 'zero-diagonal', 'diag-dominant', 'collocation', 'float-entries',
                   'rational-entries']
 TECHNIQUE = ("runtime monitoring: all-call post-condition hooks on geomdl.linalg with exact-arithmetic residual oracles, plus an "
              "online call-log checker (same arguments => bit-identical result) over randomized call histories")
@@ -529,12 +529,33 @@ def check_history(case, ctx):
             rhs[id(A)].append([[float(rng.randint(-9, 9)) for _ in range(cols)] for _ in range(n)])
     ctx.nontriv(any(n_swaps(A) >= 1 for A, _ in pool))
     ops = ['lu_factor', 'lu_solve', 'matrix_inverse', 'matrix_determinant', 'matrix_pivot', 'matrix_pivot_sign',
-           'matrix_identity', 'lu_decomposition', 'transpose_multiply']
+           'matrix_identity', 'lu_decomposition', 'transpose_multiply', 'edit-in-place', 'edit-in-place']
     for _ in range(case['steps']):
         A, cls = rng.choice(pool)
         n = len(A)
         B = rng.choice(rhs[id(A)])
         op = rng.choice(ops)
+        if op == 'edit-in-place':
+            # a caller re-uses one work matrix: the SAME list object is refilled in place between two solves; routines must go by the
+            # values, not by the identity of the object (the hooks judge every call against a deep copy taken at call time)
+            ctx.tag('edit-in-place')
+            W = rand_matrix(rng, n, 'diagdom')
+            first = rng.choice(['lu_solve', 'lu_decomposition', 'lu_factor', 'matrix_inverse', 'matrix_determinant'])
+            second = rng.choice(['lu_solve', 'lu_decomposition', 'lu_factor', 'matrix_inverse', 'matrix_determinant'])
+
+            def run(name):
+                if name in ('lu_solve', 'lu_factor'):
+                    return getattr(linalg, name)(W, B)
+                return getattr(linalg, name)(W)
+            r1 = run(first)
+            W2 = rand_matrix(rng, n, 'diagdom')
+            for i in range(n):
+                W[i][:] = W2[i]
+            if first == 'lu_decomposition' and rng.random() < 0.5:
+                r1[0][0][0] = 7.0          # a caller may scribble on what it got back
+                r1[1][n - 1][n - 1] = 0.0
+            run(second)
+            continue
         before = [list(r) for r in A]
         bbefore = [list(r) for r in B]
         if op in ('lu_factor', 'matrix_inverse'):
